@@ -3,6 +3,7 @@ from __future__ import annotations
 import ast
 import enum
 import io
+import itertools
 import re
 import sys
 import tokenize  # (the standard library's: only its open() is used)
@@ -428,12 +429,17 @@ class Parser:
         """col_offset / end_col_offset of CPython's trees count UTF-8 bytes; the tokenizer counts characters."""
         numbers = {n for node in ast.walk(tree) for n in (getattr(node, "lineno", None), getattr(node, "end_lineno", None)) if n}
         lines = dict(zip(sorted(numbers), self._tokenizer.get_lines(sorted(numbers))))
+        offsets: dict[int, list[int]] = {}  # per non-ASCII line: the byte offset of every character column (built once)
 
         def convert(lineno: int | None, col: int | None) -> int | None:
             line = lines.get(lineno, "") if lineno else ""
-            if col is None or line.isascii():
+            if col is None or lineno is None or line.isascii():
                 return col
-            return len(line[:col].encode("utf-8", "surrogatepass"))
+            if lineno not in offsets:
+                sizes = (1 if ch < "\x80" else len(ch.encode("utf-8", "surrogatepass")) for ch in line)
+                offsets[lineno] = [0, *itertools.accumulate(sizes)]
+            table = offsets[lineno]
+            return table[col] if col < len(table) else table[-1] + (col - len(table) + 1)
 
         for node in ast.walk(tree):
             if hasattr(node, "col_offset"):
